@@ -280,6 +280,18 @@ def functions():
     add("f64_reinterpret_i64", ["i64"], "f64", g0 + " (f64.reinterpret_i64)", lambda a: bits2f(a, 64))
     add("i32_reinterpret_f32", ["f32"], "i32", g0 + " (i32.reinterpret_f32)", lambda a: f2bits(a, 32))
     add("i64_reinterpret_f64", ["f64"], "i64", g0 + " (i64.reinterpret_f64)", lambda a: f2bits(a, 64))
+    # i32.eqz directly on a comparison (a front end may fold it into the inverse comparison: wrong for ordered float
+    # comparisons with a NaN operand) and a comparison result used as a number
+    for n in (32, 64):
+        f = "f%d" % n
+        for op in FC:
+            add("%s_%s_eqz" % (f, op), [f, f], "i32", "%s (%s.%s) (i32.eqz)" % (g01, f, op), (lambda op, n: lambda a, b: 1 - fcmp(op, n, a, b))(op, n))
+        t = "i%d" % n
+        for op in ("lt_s", "ge_u", "eq"):
+            add("%s_%s_eqz" % (t, op), [t, t], "i32", "%s (%s.%s) (i32.eqz)" % (g01, t, op), (lambda op, n: lambda a, b: 1 - icmp(op, n, a, b))(op, n))
+    add("f64_lt_plus", ["f64", "f64"], "i32", "(local.get 0) (local.get 1) (f64.lt) (local.get 1) (local.get 0) (f64.ge) (i32.add)", lambda a, b: fcmp("lt", 64, a, b) + fcmp("ge", 64, b, a))
+    add("f32_if_not_le", ["f32", "f32"], "i32", "(local.get 0) (local.get 1) (f32.le) (i32.eqz) (if (result i32) (then (i32.const 7)) (else (i32.const 9)))",
+        lambda a, b: 7 if not fcmp("le", 32, a, b) else 9)
     # the same operators reached through other instruction shapes: constants, select, local.tee, a compared branch
     add("i32_select_lt_u", ["i32", "i32"], "i32", "(local.get 0) (local.get 1) (local.get 0) (local.get 1) (i32.lt_u) (select)",
         lambda a, b: a if ux(a, 32) < ux(b, 32) else b)
